@@ -182,6 +182,14 @@ def acLine (d : ACDrv) (lineNo : Nat) (ts : List String) : ACDrv × List String 
         let (d, o) := viol d vIso
         ({ d with mismatches := d.mismatches + 1 }, mism d "observer callback not invoked or no hand state shown" ++ o)
     | _, _ => (d, [s!"BADLINE {lineNo} ac-observe"])
+  | "deliver" :: rest =>
+    -- k goroutines hand one actor a table at the same moment: its runner sees every one of them, one at a time
+    let k := (kvNat rest "k").getD 0
+    let handled := (kvNat post "handled").getD 0
+    let overlap := (kvNat post "overlap").getD 0
+    let d := { d with cnt := d.cnt.bump "actor.simultaneous-deliveries" }
+    viol d ((if handled == k then [] else ["C18.delivery-to-a-busy-actor-dropped"]) ++
+            (if overlap ≤ 1 then [] else ["C18.deliveries-to-one-actor-overlap"]))
   | "observe-late" :: _ =>
     -- a listener registered on an observer that has just been taken out of system mode: what it is handed (if anything)
     let d := { d with cnt := d.cnt.bump "observer.late-listener" }
